@@ -466,6 +466,30 @@ VARIANTS['H10-echo-entry-helper-in-other-file-other-alias-comment'] = (h10_echo_
 VARIANTS['h1'] = (lambda: subprocess.check_call(['git', '-C', WT, 'apply', '/verif/harmless/C15C19-h1/patch.diff']), False)
 VARIANTS['h2'] = (lambda: subprocess.check_call(['git', '-C', WT, 'apply', '/verif/harmless/C15C19-h2/patch.diff']), False)
 
+for h in ['C15C19-h3','C15C19-h4','w2-C18C19-h1','w2-C18C19-h2','w2-C18C19-h3','w2-C18C19-h4','w3-C17C19-h1','w3-C17C19-h2','w3-C17C19-h3','w3-C17C19-h4']:
+    VARIANTS['P-'+h] = ((lambda h=h: subprocess.check_call(['git', '-C', WT, 'apply', '/verif/harmless/%s/patch.diff' % h])), False)
+
+
+def h11_gin_field_receiver():
+    subprocess.check_call(['git', '-C', WT, 'apply', '/verif/harmless/w3-C17C19-h4/patch.diff'])
+    edit('gin/middleware.go', [('			options.handleBlocked(c)\n', '			(&holder{o: options}).o.handleBlocked(c)\n')])
+    edit('gin/option.go', [], '\ntype holder struct{ o *options }\n')
+
+
+def h12_gin_interface_local():
+    subprocess.check_call(['git', '-C', WT, 'apply', '/verif/harmless/w3-C17C19-h4/patch.diff'])
+    edit('gin/middleware.go', [('			options.handleBlocked(c)\n', '			var r interface{ handleBlocked(*gin.Context) } = options\n			r.handleBlocked(c)\n')])
+
+
+def u1_gin_ambiguous_method():
+    h12_gin_interface_local()
+    edit('gin/option.go', [], '\ntype other struct{}\n\nfunc (other) handleBlocked(c *gin.Context) { c.AbortWithStatus(http.StatusTooManyRequests) }\n')
+
+
+VARIANTS['H11-gin-options-method-through-struct-field'] = (h11_gin_field_receiver, False)
+VARIANTS['H12-gin-options-method-through-interface-local'] = (h12_gin_interface_local, False)
+VARIANTS['U1-gin-harmless-but-not-inlinable-ambiguous-method-name'] = (u1_gin_ambiguous_method, True)
+
 
 def reset():
     subprocess.check_call(['git', '-C', WT, 'checkout', '-q', '--', '.'])
@@ -510,7 +534,7 @@ def main():
             ok = (verdict == 'VIOLATION') == mutant and (mutant or known == ['C19-F1', 'C19-F6'])
             print('%-62s %-9s exit=%d known=%s %s %s' % (n, verdict, r.returncode, known, 'OK' if ok else '**UNEXPECTED**', summ[0][summ[0].index('theorems'):] if summ else ''))
             if viol:
-                print('    ', viol[0])
+                print('    ', viol[0], '| monitor:', summ[0][summ[0].index('monitor'):] if summ else '')
             results[n] = dict(verdict=verdict, ok=ok)
             sys.stdout.flush()
     reset()
